@@ -348,7 +348,7 @@ Theorem gej_double_correct : forall inf x0 x1 x2 x3 x4 y0 y1 y2 y3 y4 z0 z1 z2 z
 Proof. exact Kernel.GejDouble.gej_double_correct. Qed.
 Print Assumptions gej_double_correct.
 
-Require Import Kernel.GroupSmall Gen.ge_set_gej_zinv Gen.gej_rescale.
+Require Import Kernel.GroupSmall Gen.ge_set_gej_zinv Gen.gej_rescale Gen.ge_set_ge_zinv.
 
 Theorem ge_set_gej_zinv_correct : forall inf zi0 zi1 zi2 zi3 zi4 x0 x1 x2 x3 x4 y0 y1 y2 y3 y4,
   lim 8 zi0 zi1 zi2 zi3 zi4 -> lim 8 x0 x1 x2 x3 x4 -> lim 8 y0 y1 y2 y3 y4 ->
@@ -358,6 +358,15 @@ Theorem ge_set_gej_zinv_correct : forall inf zi0 zi1 zi2 zi3 zi4 x0 x1 x2 x3 x4 
     cong (val5 rx0 rx1 rx2 rx3 rx4) (X * (ZI * ZI)) /\ cong (val5 ry0 ry1 ry2 ry3 ry4) (Y * (ZI * ZI * ZI))).
 Proof. exact Kernel.GroupSmall.ge_set_gej_zinv_correct. Qed.
 Print Assumptions ge_set_gej_zinv_correct.
+
+Theorem ge_set_ge_zinv_correct : forall inf zi0 zi1 zi2 zi3 zi4 x0 x1 x2 x3 x4 y0 y1 y2 y3 y4,
+  lim 8 zi0 zi1 zi2 zi3 zi4 -> lim 8 x0 x1 x2 x3 x4 -> lim 8 y0 y1 y2 y3 y4 ->
+  ge_set_ge_zinv_k inf zi0 zi1 zi2 zi3 zi4 x0 x1 x2 x3 x4 y0 y1 y2 y3 y4 (fun rinf rx0 rx1 rx2 rx3 rx4 ry0 ry1 ry2 ry3 ry4 =>
+    let X := val5 x0 x1 x2 x3 x4 in let Y := val5 y0 y1 y2 y3 y4 in let ZI := val5 zi0 zi1 zi2 zi3 zi4 in
+    rinf = inf /\ lim 1 rx0 rx1 rx2 rx3 rx4 /\ lim 1 ry0 ry1 ry2 ry3 ry4 /\
+    cong (val5 rx0 rx1 rx2 rx3 rx4) (X * (ZI * ZI)) /\ cong (val5 ry0 ry1 ry2 ry3 ry4) (Y * (ZI * ZI * ZI))).
+Proof. exact Kernel.GroupSmall.ge_set_ge_zinv_correct. Qed.
+Print Assumptions ge_set_ge_zinv_correct.
 
 Theorem gej_rescale_correct : forall s0 s1 s2 s3 s4 x0 x1 x2 x3 x4 y0 y1 y2 y3 y4 z0 z1 z2 z3 z4,
   lim 8 s0 s1 s2 s3 s4 -> lim 8 x0 x1 x2 x3 x4 -> lim 8 y0 y1 y2 y3 y4 -> lim 8 z0 z1 z2 z3 z4 ->
